@@ -9,8 +9,8 @@ import shutil
 import tempfile
 import zlib
 
-from harness.common import Ck, coq_bytes, coq_list, parse_coq_N_list
-from translate import c13_vpk
+from harness.common import Ck, coq_bytes, coq_list, coq_str, parse_coq_N_list
+from translate import c13_archname, c13_vpk
 
 MANIFEST = dict(
     technique='Rocq proof (directory-tree codec round trip; write_dirfile+reopen preserves every entry for every placement; '
@@ -37,7 +37,8 @@ MANIFEST = dict(
          'File names whose last component ends in "." are listed without the dot (known finding name-trailing-dot).',
 )
 
-IMPORTS = ['Coq.Lists.List', 'Coq.NArith.NArith', 'SV.Fmt.VpkDir', 'SV.SM.Vpk', 'SV.SM.VpkCorr', 'SV.Gen.VpkPlace_gen']
+IMPORTS = ['Coq.Lists.List', 'Coq.NArith.NArith', 'SV.Fmt.VpkDir', 'SV.SM.Vpk', 'SV.Fmt.VpkArchName', 'SV.SM.VpkCorr', 'SV.Gen.VpkPlace_gen',
+           'SV.Gen.VpkArchName_gen']
 PRE = 'Import ListNotations. Open Scope N_scope.\n'
 
 R_OK, R_RO, R_EXISTS, R_MISSING, R_BADNAME, R_BADIDX, R_BADDIR, R_EXC = 0, 1, 2, 3, 4, 5, 6, 9
@@ -129,6 +130,11 @@ TRAILING_DOT = ['a/b.c.', 'b.', 'a/b..', 'x/y.z.w.']
 ALPH = 'ab./ A\\~'
 
 
+def bud(ck: Ck, quick: int, mid: int, thorough: int) -> int:
+    """Case budget: quick tier; quick tier after a tie broke (escalated, but kept within the quick wall-time limit); thorough tier."""
+    return thorough if ck.thorough else (mid if ck.tie_broken else quick)
+
+
 def rand_name(rng: random.Random) -> str:
     r = rng.random()
     if r < 0.75:
@@ -160,10 +166,17 @@ def rand_size(rng: random.Random, limit, big: bool) -> int:
 BASES = ['pak', 'world', 'sound', 'pak01', 'did', 'r', 'a_dir', 'x.vpk', 'mod_', 'Dir', 'vpk']
 
 
+def case_fname(cfg: dict) -> str:
+    """The archive's own file name: <base>_dir.vpk for a directory VPK, <base>.vpk for a singular one."""
+    return cfg.get('base', 'pak') + ('_dir.vpk' if cfg['dir'] else '.vpk')
+
+
 def gen_case(rng: random.Random, big: bool = False, nops: int | None = None, small: bool = False) -> dict:
     cfg = {'dir': rng.random() < 0.75, 'limit': rng.choice(LIMITS)}
     if rng.random() < 0.5:      # the archive's own file name: prefixes that end in characters of '_dir', contain '_dir' or '.vpk'
         cfg['base'] = rng.choice(BASES)
+        if case_fname(cfg).endswith('_dir.vpk'):      # 'a_dir' + '.vpk' is a directory VPK whatever was drawn
+            cfg['dir'] = True
     if big:
         cfg['limit'] = rng.choice([None, 0, 1024, 70000, 65535])
     if small:       # for in-Coq evaluation: sizes stay around small limits
@@ -303,7 +316,7 @@ def run_impl(case: dict, want_files: bool = False) -> dict:
     cfg = case['cfg']
     d = tempfile.mkdtemp(prefix='c13_', dir=os.environ.get('VERIF_SCRATCH', '/var/tmp'))
     base = cfg.get('base', 'pak')
-    fname = base + ('_dir.vpk' if cfg['dir'] else '.vpk')
+    fname = case_fname(cfg)
     path = os.path.join(d, fname)
     steps = []
     try:
@@ -351,7 +364,10 @@ def run_impl(case: dict, want_files: bool = False) -> dict:
             forms[(info.dir, info._filename, info.ext)] = _forms_resolve(vpk, info, full)
         res['forms'] = forms
         res['len'] = len(vpk)
-        res['verify_all'] = bool(vpk.verify_all())
+        try:
+            res['verify_all'] = bool(vpk.verify_all())
+        except Exception:      # noqa
+            res['verify_all'] = False
         res['entries'] = {(i.dir, i._filename, i.ext): (i.crc, dg(i.start_data), i.arch_index, i.offset, i.arch_len) for i in vpk}
         res['footer'] = dg(vpk.footer_data)
         return res
@@ -466,8 +482,8 @@ CORPUS = [
 
 
 def search(ck: Ck) -> None:
-    n_small = ck.budget(400, 6000)
-    n_big = ck.budget(14, 300)
+    n_small = bud(ck, 400, 2500, 6000)
+    n_big = bud(ck, 14, 80, 300)
     found: dict[str, tuple] = {}
     cases = list(CORPUS)
     for _ in range(n_small):
@@ -549,7 +565,8 @@ def c_op(op) -> str | None:
 
 def c_cfg(cfg) -> str:
     lim = 'None' if cfg['limit'] is None else f'(Some {cfg["limit"]})'
-    return f'(g_vcfg {"true" if cfg["dir"] else "false"} {lim})'
+    # whether the archive is a directory VPK is decided by the naming model (the translated filename setter) from the file name
+    return f'(g_vcfg (match dir_prefix_of g_ncfg {coq_str(case_fname(cfg))} with Some _ => true | None => false end) {lim})'
 
 
 def c_dg(d) -> str:
@@ -559,8 +576,8 @@ def c_dg(d) -> str:
 def corr_machine(ck: Ck) -> None:
     """SM/Vpk.v run on the same histories as the implementation: per-op code and summary, final per-file digests,
     byte-exact directory file and archives (length + CRC32)."""
-    n_small = ck.budget(220, 3000)
-    n_big = ck.budget(3, 40)
+    n_small = bud(ck, 220, 900, 3000)
+    n_big = bud(ck, 3, 12, 40)
     cases = [c for c in CORPUS]
     for _ in range(n_small):
         cases.append(gen_case(ck.rng, small=True))
@@ -621,7 +638,7 @@ def corr_decode(ck: Ck) -> None:
     """Independent decode: the bytes the implementation wrote (and truncations of them) through the model decoder,
     against what the implementation itself loads from those bytes."""
     from srctools.vpk import VPK
-    n = ck.budget(100, 1200)
+    n = bud(ck, 100, 400, 1200)
     lits = []
     nbad_files = 0
     d = tempfile.mkdtemp(prefix='c13d_', dir=os.environ.get('VERIF_SCRATCH', '/var/tmp'))
@@ -686,7 +703,7 @@ def corr_decode(ck: Ck) -> None:
 def corr_names(ck: Ck) -> None:
     """Fmt/VpkName.v file_parts / join_parts vs _get_file_parts / _join_file_parts."""
     from srctools.vpk import _get_file_parts, _join_file_parts
-    n = ck.budget(1500, 20000)
+    n = bud(ck, 1500, 6000, 20000)
     forms = []
     for nm in NAME_POOL + TRAILING_DOT + BAD_NAMES:
         for k in 's23':
@@ -723,8 +740,8 @@ def corr_names(ck: Ck) -> None:
     bad = []
     for lo in range(0, len(lits), 500):
         part = lits[lo:lo + 500]
-        vals = ck.coq_eval(IMPORTS + ['SV.Fmt.VpkName'], [
-            'bad_idx (fun c : nameform * key * bytes => andb (key_eqb (file_parts posix_normpath (fst (fst c))) (snd (fst c))) '
+        vals = ck.coq_eval(IMPORTS + ['SV.Fmt.VpkName', 'SV.Fmt.VpkNameSplit'], [
+            'bad_idx (fun c : nameform * key * bytes => andb (key_eqb (file_parts_k posix_normpath g_ext_split (fst (fst c))) (snd (fst c))) '
             f'(bytes_eqb (join_parts (snd (fst c))) (snd c))) 0 {coq_list(part)}'], name='vpknames', preamble=PRE)
         if vals is None:
             ck.obligation('correspondence:names', False, 'model could not be evaluated')
@@ -732,10 +749,109 @@ def corr_names(ck: Ck) -> None:
             return
         bad += [lo + i for i in parse_coq_N_list(vals[0])]
     ck.obligation('correspondence:names', not bad,
-                  f'{len(lits)} name forms, Fmt/VpkName.v file_parts/join_parts vs _get_file_parts/_join_file_parts: {len(bad)} disagreements')
+                  f'{len(lits)} name forms, Fmt/VpkNameSplit.v file_parts_k over the translated split statement / join_parts vs _get_file_parts/_join_file_parts: {len(bad)} disagreements')
     if bad:
         ck.tie_broken.append('correspondence VPK names (Fmt/VpkName.v vs _get_file_parts)')
         ck.extra['names_disagreement'] = {'form': repr(forms[bad[0]]), 'impl': repr(_get_file_parts(forms[bad[0]]))}
+
+
+# ------------------------------------------------------------------------------------------------ archive file names
+NAME_SUFFIXES = ['_dir.vpk', '.vpk', '', '_dir', 'dir.vpk', '_DIR.vpk', '.vpk_dir.vpk', '_dir.vpk.vpk', '_dir_dir.vpk', '__dir.vpk']
+NAME_INDEXES = [0, 1, 7, 10, 99, 100, 999, 1000, 32766]
+
+
+def arch_sites_impl(fname: str, idxs: list[int]) -> tuple:
+    """What the implementation's three get_arch_filename sites really open for the VPK file name `fname`:
+    (_dir_prefix, [[name appended to by FileInfo.write, name opened by read, name opened by verify] per index])."""
+    from srctools.vpk import VPK
+    d = tempfile.mkdtemp(prefix='c13n_', dir=os.environ.get('VERIF_SCRATCH', '/var/tmp'))
+    try:
+        vpk = VPK(os.path.join(d, fname), mode='w', dir_data_limit=0)
+        out = []
+        for i in idxs:
+            before = set(os.listdir(d))
+            vpk.add_file(f'f{i}.x', b'abc', arch_index=i)
+            made = sorted(set(os.listdir(d)) - before)
+            if len(made) > 1:
+                raise RuntimeError(f'one write created {made}')
+            info = vpk[f'f{i}.x']
+            for m in made:
+                os.remove(os.path.join(d, m))
+            if not made:        # singular VPK: the data stayed in the file itself; point the entry at archive i to reach the read sites
+                info.arch_index, info.arch_len, info.offset = i, 1, 0
+            opened = []
+            for fn in (info.read, info.verify):
+                try:
+                    fn()
+                    opened.append(None)
+                except FileNotFoundError as e:
+                    opened.append(os.path.relpath(e.filename, d))
+            out.append([made[0] if made else None] + opened)
+        return vpk._dir_prefix, out
+    finally:
+        shutil.rmtree(d, ignore_errors=True)
+
+
+def c_ostr(x) -> str:
+    return 'None' if x is None else f'(Some {coq_str(x)})'
+
+
+def corr_archnames(ck: Ck) -> list[str]:
+    """Fmt/VpkArchName.v over the translated configuration vs the files the implementation's sites open."""
+    n = bud(ck, 70, 250, 700)
+    names = [b + sfx for b in BASES for sfx in NAME_SUFFIXES]
+    ck.rng.shuffle(names)
+    names = ['world_dir.vpk', 'pak01_dir.vpk', 'x.vpk', 'a_dir.vpk', '_dir.vpk', 'r_dir.vpk', 'did_dir.vpk'] + names
+    alph = '_dir.vpka0'
+    while len(names) < n * 2:
+        nm = ''.join(ck.rng.choice(alph) for _ in range(ck.rng.choice([1, 2, 4, 6, 9, 12])))
+        if ck.rng.random() < 0.6:
+            nm += ck.rng.choice(['_dir.vpk', '.vpk', 'r_dir.vpk'])
+        names.append(nm)
+    seen, lits, kept = set(), [], []
+    for nm in names:
+        if nm in seen or nm in ('.', '..') or len(lits) >= n:
+            continue
+        seen.add(nm)
+        idxs = ck.rng.sample(NAME_INDEXES, 2)
+        try:
+            dp, sites = arch_sites_impl(nm, idxs)
+        except Exception as e:      # noqa
+            ck.notes.append(f'corr_archnames: implementation run failed for {nm!r}: {e!r}')
+            continue
+        ex = f'({c_ostr(dp)}, {coq_list(coq_list(c_ostr(x) for x in row) for row in sites)})'
+        lits.append(f'({coq_str(nm)}, {coq_list(str(i) for i in idxs)}, {ex})')
+        kept.append((nm, idxs, dp, sites))
+        ck.count('corr_archive_names')
+        ck.hist('archive_name_kind', 'directory' if dp is not None else 'singular')
+        if dp is not None:
+            ck.seen(('an', nm, tuple(idxs)))
+    vals = ck.coq_eval(IMPORTS, [
+        'bad_idx (fun c : list N * list N * (option (list N) * list (list (option (list N)))) => '
+        f'check_archname g_ncfg (fst (fst c)) (snd (fst c)) (snd c)) 0 {coq_list(lits)}'], name='vpkarch', preamble=PRE)
+    if vals is None:
+        ck.obligation('correspondence:archive-names', False, 'model could not be evaluated')
+        ck.tie_broken.append('correspondence VPK archive names: model evaluation failed')
+        return []
+    bad = parse_coq_N_list(vals[0])
+    ck.obligation('correspondence:archive-names', not bad,
+                  f'{len(lits)} VPK file names x 2 indexes: Fmt/VpkArchName.v over the translated sites (_dir_prefix, file appended to by '
+                  f'FileInfo.write, files opened by read/verify) vs the files the implementation really opens: {len(bad)} disagreements')
+    if kept:
+        ck.sample({'vpk file name': kept[0][0], 'indexes': kept[0][1], '_dir_prefix': kept[0][2], 'write/read/verify open': kept[0][3]})
+    out = []
+    if bad:
+        ck.tie_broken.append('correspondence VPK archive names (Fmt/VpkArchName.v vs get_arch_filename sites)')
+        ck.extra['archname_disagreement'] = {'name': kept[bad[0]][0], 'indexes': kept[bad[0]][1], 'impl': repr(kept[bad[0]][2:])}
+    # oracle on the same observations, independent of the model: the writer's file is the file both readers open
+    for nm, idxs, dp, sites in kept:
+        for i, row in zip(idxs, sites):
+            if row[0] is not None and (row[1] != row[0] or row[2] != row[0]):
+                out.append(nm)
+                ck.violation('archive-name-mismatch', f'VPK {nm!r}, archive index {i}: FileInfo.write appends to {row[0]!r}, read opens {row[1]!r}, '
+                             f'verify opens {row[2]!r}', {'fname': nm, 'indexes': [i], 'how': 'checks.c13.arch_sites_impl(fname, indexes)'})
+                break
+    return out
 
 
 # ------------------------------------------------------------------------------------------------ main
@@ -756,11 +872,11 @@ def run(ck: Ck) -> None:
         'fresh directory: no numbered archive files exist before the history starts; one process at a time',
     ]
     ok_t = ck.translate('VpkPlace_gen', c13_vpk.translate)
-    side = ck.extra.get('translated', {}).get('VpkPlace_gen', {})
-    built = ok_t and ck.build(['Props/C13.vo', 'SM/VpkCorr.vo', 'Gen/VpkPlace_gen.vo'])
+    ok_t = ck.translate('VpkArchName_gen', c13_archname.translate) and ok_t
+    built = ok_t and ck.build(['Props/C13.vo', 'SM/VpkCorr.vo', 'Gen/VpkPlace_gen.vo', 'Gen/VpkArchName_gen.vo'])
     if built:
         ck.theorems('Props/C13.v')
-        ck.instance_obligations(IMPORTS + ['SV.Props.C13'], {
+        ck.instance_obligations(IMPORTS + ['SV.Fmt.VpkNameSplit', 'SV.Props.C13'], {
             'format_constants_in_range': 'dcfg_ok g_dcfg',
             'reader_and_writer_use_the_same_dir_sentinel': 'N.eqb g_dir_index_read g_dir_index_write',
             'reader_and_writer_use_the_same_terminator': 'N.eqb g_term_read g_term_write',
@@ -774,7 +890,19 @@ def run(ck: Ck) -> None:
             'archive_index_validated': 'g_chk_idx',
             'unrepresentable_names_rejected': 'g_chk_name',
             'instance_satisfies_theorem_premises': 'andb (vcfg_ok (g_vcfg true (Some 1024%N))) (vcfg_ok (g_vcfg false None))',
+            'ext_split_is_at_the_last_dot': 'split_kind_ok g_ext_split',
+            # archive file names (Gen/VpkArchName_gen.v): premises of c13_dir_prefix_exact / c13_arch_names_coincide / c13_arch_filename_*
+            'filename_setter_removes_the_tested_suffix': 'setter_ok g_ncfg',
+            'write_site_prefix_is_the_dir_prefix': 'site_ok g_ncfg (n_writer g_ncfg)',
+            'read_sites_prefix_is_the_dir_prefix': 'forallb (site_ok g_ncfg) (n_readers g_ncfg)',
+            'dir_suffix_same_in_get_arch_filename_and_setter': 'bytes_eqb (n_dir_suffix g_ncfg) (n_suffix g_ncfg)',
+            'numbered_archives_distinct_from_dir_file': 'numbered_ok g_ncfg',
+            'arch_naming_instance_satisfies_theorem_premises': 'ncfg_ok g_ncfg',
+            'archive_sites_same_folder_and_index': 'andb g_index_args_ok g_sites_join_folder',
+            'archive_appended_at_end_and_read_at_offset': 'g_archive_append_at_end',
+            'deprecated_file_prefix_setter_consistent': 'g_prefix_setter_consistent',
         }, name='vpkinst')
+        corr_archnames(ck)
         corr_machine(ck)
         corr_decode(ck)
         corr_names(ck)
@@ -808,6 +936,12 @@ def replay(data: dict) -> int:
             print('    impl  :', s['obs'])
             print('    expect:', {k: (dg(v), True) for k, v in e['map'].items()})
         print('filenames():', got['names'])
+        return 0
+    if 'fname' in r:
+        dp, sites = arch_sites_impl(r['fname'], list(r['indexes']))
+        print('VPK file name:', r['fname'], '-> _dir_prefix', repr(dp))
+        for i, row in zip(r['indexes'], sites):
+            print(f'  archive {i}: FileInfo.write appends to {row[0]!r}; read opens {row[1]!r}; verify opens {row[2]!r}')
         return 0
     print(r)
     return 0
